@@ -428,6 +428,12 @@ theorem gen_formula_exposure_to_weights_exact (y e w : Nat → α) (i : Nat) :
     ((exposureToWeights id y (some e) (some w)).1 i, (exposureToWeights id y (some e) (some w)).2 i)
       = Gen.exposure_to_weights_core (y i) (e i) (w i) := rfl
 
+/-- the final `return self.predict_mu(X) * exposure` of `PoissonGAM.predict`, translated from the current source
+(`Gen.poisson_predict`), IS the model's `predictExposure`, entry by entry: predicted rate × (cast, or omitted = 1)
+exposure -/
+theorem gen_formula_poisson_predict (cast : α → α) (rate : Nat → α) (e : Option (Nat → α)) (i : Nat) :
+    predictExposure cast rate e i = Gen.poisson_predict (rate i) (optVec cast e i) := rfl
+
 end gen_formulas
 
 end PyGam.C19
